@@ -173,8 +173,158 @@ class _Unroll(ast.NodeTransformer):
         return out
 
 
+_INPLACE_UFUNCS = {"negative": ("unary", ast.USub), "multiply": ("bin", ast.Mult), "add": ("bin", ast.Add), "subtract": ("bin", ast.Sub), "divide": ("bin", ast.Div)}
+
+
+def _basic_index(e: ast.AST) -> bool:
+    """An index made of names, constants, slices and tuples of them: the subscript is a NumPy view."""
+    if isinstance(e, ast.Tuple):
+        return all(_basic_index(x) for x in e.elts)
+    if isinstance(e, ast.Slice):
+        return all(x is None or isinstance(x, (ast.Name, ast.Constant)) or (isinstance(x, ast.UnaryOp) and isinstance(x.operand, ast.Constant)) for x in (e.lower, e.upper, e.step))
+    if isinstance(e, ast.Constant):
+        return isinstance(e.value, int) or e.value is Ellipsis
+    return isinstance(e, ast.Name)
+
+
+def _eliminate_views(fn: ast.AST) -> None:
+    """Source normal form: a local that is bound once to a basic-index subscript of an attribute
+    / name (`row = self._a[i, :]`), and is then only written as a whole (`row[:] = e`,
+    `row[...] = e`, `row op= e`, `np.negative(row, out=row)`) or read, is replaced by the
+    subscript itself.  NumPy basic indexing gives a view, so writing the view is writing the
+    array: behaviour preserving, and the term analyses see the stores on the array."""
+    import copy
+
+    assigns: dict[str, list] = {}
+    for n in ast.walk(fn):
+        if isinstance(n, (ast.FunctionDef, ast.AsyncFunctionDef, ast.Lambda)) and n is not fn:
+            continue
+        tgts = []
+        if isinstance(n, ast.Assign):
+            tgts = n.targets
+        elif isinstance(n, (ast.AugAssign, ast.AnnAssign)):
+            tgts = [n.target]
+        elif isinstance(n, (ast.For, ast.AsyncFor)):
+            tgts = [n.target]
+        elif isinstance(n, ast.withitem) and n.optional_vars is not None:
+            tgts = [n.optional_vars]
+        elif isinstance(n, ast.NamedExpr):
+            tgts = [n.target]
+        for t in tgts:
+            for leaf in ast.walk(t):
+                if isinstance(leaf, ast.Name) and isinstance(leaf.ctx, ast.Store):
+                    assigns.setdefault(leaf.id, []).append(n)
+    params = {a.arg for a in fn.args.posonlyargs + fn.args.args + fn.args.kwonlyargs} if hasattr(fn, "args") else set()
+    for name, sites in assigns.items():
+        if len(sites) != 1 or name in params:
+            continue
+        st = sites[0]
+        if not (isinstance(st, ast.Assign) and len(st.targets) == 1 and isinstance(st.targets[0], ast.Name) and isinstance(st.value, ast.Subscript)):
+            continue
+        sub = st.value
+        base = sub.value
+        while isinstance(base, ast.Attribute):
+            base = base.value
+        if not isinstance(base, ast.Name) or not _basic_index(sub.slice):
+            continue
+        index_names = {x.id for x in ast.walk(sub.slice) if isinstance(x, ast.Name)} | {base.id}
+        # the statement list that holds the binding; every use must be inside it, after the binding
+        holder = None
+        for par in ast.walk(fn):
+            for fld in ("body", "orelse", "finalbody"):
+                lst = getattr(par, fld, None)
+                if isinstance(lst, list) and any(x is st for x in lst):
+                    holder = lst
+        if holder is None:
+            continue
+        idx = next(i for i, x in enumerate(holder) if x is st)
+        rest = holder[idx + 1:]
+        inside = {id(x) for s_ in rest for x in ast.walk(s_)}
+        uses = [x for x in ast.walk(fn) if isinstance(x, ast.Name) and x.id == name and x is not st.targets[0]]
+        if not uses or any(id(u) not in inside for u in uses):
+            continue
+        # nothing the subscript depends on is rebound after the binding
+        if any(isinstance(x, ast.Name) and isinstance(x.ctx, ast.Store) and x.id in index_names for s_ in rest for x in ast.walk(s_)):
+            continue
+        whole_stores = 0
+        ok = True
+        plan = []  # (statement, replacement statement)
+
+        def the_sub(ctx_):
+            c = copy.deepcopy(sub)
+            c.ctx = ctx_
+            return c
+
+        for s_ in rest:
+            for x in ast.walk(s_):
+                if isinstance(x, ast.Assign) and any(isinstance(t, ast.Subscript) and isinstance(t.value, ast.Name) and t.value.id == name for t in x.targets):
+                    t = x.targets[0]
+                    full = isinstance(t.slice, ast.Slice) and t.slice.lower is None and t.slice.upper is None and t.slice.step is None or (isinstance(t.slice, ast.Constant) and t.slice.value is Ellipsis)
+                    if len(x.targets) != 1 or not full:
+                        ok = False
+                    else:
+                        whole_stores += 1
+                        plan.append((x, ("assign", x)))
+                elif isinstance(x, ast.AugAssign) and isinstance(x.target, ast.Name) and x.target.id == name:
+                    ok = False  # rebinding/augmenting the name itself is not handled (single binding required)
+                elif isinstance(x, ast.Expr) and isinstance(x.value, ast.Call):
+                    c = x.value
+                    outs = [kw for kw in c.keywords if kw.arg == "out"]
+                    if outs and isinstance(outs[0].value, ast.Name) and outs[0].value.id == name:
+                        fname = c.func.attr if isinstance(c.func, ast.Attribute) else (c.func.id if isinstance(c.func, ast.Name) else "")
+                        if fname in _INPLACE_UFUNCS and len(c.keywords) == 1:
+                            whole_stores += 1
+                            plan.append((x, ("ufunc", fname, c)))
+                        else:
+                            ok = False
+        if not ok or whole_stores == 0:
+            continue
+        # apply: replace the planned statements, then every remaining load of the name
+        def replace_stmt(old, new):
+            for par in ast.walk(fn):
+                for fld in ("body", "orelse", "finalbody"):
+                    lst = getattr(par, fld, None)
+                    if isinstance(lst, list):
+                        for i, y in enumerate(lst):
+                            if y is old:
+                                lst[i] = new
+
+        for old, how in plan:
+            if how[0] == "assign":
+                new = ast.Assign(targets=[the_sub(ast.Store())], value=old.value, type_comment=None)
+            else:
+                kind, op = _INPLACE_UFUNCS[how[1]]
+                c = how[2]
+                if kind == "unary" and len(c.args) == 1:
+                    val = ast.UnaryOp(op=op(), operand=c.args[0])
+                elif kind == "bin" and len(c.args) == 2:
+                    val = ast.BinOp(left=c.args[0], op=op(), right=c.args[1])
+                else:
+                    continue
+                new = ast.Assign(targets=[the_sub(ast.Store())], value=val, type_comment=None)
+            ast.copy_location(new, old)
+            replace_stmt(old, new)
+
+        class _R(ast.NodeTransformer):
+            def visit_Name(self, n):
+                if n.id == name and isinstance(n.ctx, ast.Load):
+                    return ast.copy_location(the_sub(ast.Load()), n)
+                return n
+
+        for i, s_ in enumerate(holder):
+            if i > idx:
+                holder[i] = _R().visit(s_)
+        # the binding itself stays (now unused): harmless
+
+
 def normalise_tree(tree: ast.Module) -> ast.Module:
     tree = _Unroll().visit(tree)
+    for n in list(ast.walk(tree)):
+        if isinstance(n, (ast.FunctionDef, ast.AsyncFunctionDef)):
+            try:
+                _eliminate_views(n)
+            except Exception:  # noqa: BLE001 - a normal form is optional: leave the function as written
+                pass
     ast.fix_missing_locations(tree)
     return tree
 
